@@ -146,11 +146,14 @@ def answerCore (fs : List (String × String)) : E String := do
       -- LLTSA: the alignment matrix acts on the centred features, A = Fᵀ (H M H) F  (H M H = alignment + shift·H, so the
       -- pencil (A, Fᵀ H F) has the eigenvectors of the property's (X M Xᵀ, X H Xᵀ) with M the alignment matrix proper)
       let Mf0 : Mat N N Fix := matOf Ma N N
-      let Mf : Mat N N Fix :=
+      -- (first-order data on both branches: a function-typed `if` would be re-evaluated per entry)
+      let McD : DMat N N Fix :=
         if method == "lltsa" then
-          let HM := DMat.ofFn (Mat.mul (centering : Mat N N Fix) Mf0)
-          (DMat.ofFn (Mat.mul HM.get (centering : Mat N N Fix))).get
-        else Mf0
+          let Hc : DMat N N Fix := DMat.ofFn (centering : Mat N N Fix)
+          let HM : DMat N N Fix := DMat.ofFn (Mat.mul Hc.get Mf0)
+          DMat.ofFn (Mat.mul HM.get Hc.get)
+        else DMat.ofFn Mf0
+      let Mf : Mat N N Fix := McD.get
       let A := fullOf Mf F
       let Bm : Mat N N Fix := match Bdiag with
         | some dg => fun r c => if r = c then dg[r.1]! else 0
